@@ -934,7 +934,7 @@ Proof.
   split; [intros env x; cbn [dsem String.eqb Ascii.eqb Bool.eqb]; rewrite S0, S1, sem_mul, sem_mul, sem_pow,
           (eq_int_floor _ _ _ _ _ Hw); cbn [pw]; cbn; ring|].
   split; [intros env x; rewrite pos_app; cbn [poss]; rewrite pos_app; cbn [poss];
-          intros [[Q0 [[[Qu _] _] _]] _]; cbn [dpos]; auto|].
+          intros [[Q0 [[[Qu _] _] _]] _]; cbn [dpos String.eqb Ascii.eqb Bool.eqb]; auto|].
   split.
   - intro H. apply andb_prop in H. destruct H as [H H']. apply andb_prop in H'. destruct H' as [H' _].
     apply andb_prop in H'. destruct H' as [H' _]. rewrite X0, X1; auto.
